@@ -14,9 +14,12 @@ History explorer over a directory (driver E5, explicit-state search with de-dupl
     and staying true downstream, a fully unchanged re-run rewrites nothing and launches nothing.
 
 Two pipelines: "plain" (p independent plots) and "grouped" (group_plots + MapGroup: p csv members, one
-combined tex/pdf/png), all existing_unchanged / overwrite settings.
+combined tex/pdf/png; 2 members, and 3 so that a member has a neighbour on both sides), all
+existing_unchanged / overwrite settings. Besides the data A and B a plot can be E, empty (a graph without
+points, whose CSV text is the empty string).
 Separately (exhaustive enumeration): sequences of <= 3 MakeFilename elements against the naming model,
-Write's path rule, group_plots' combination of output.changed.
+Write's path rule, Write's content rule (every text, the empty one included, over every earlier content of
+the file), group_plots' and MapGroup's combination of output.changed.
 """
 import copy
 import itertools
@@ -41,7 +44,8 @@ LEVEL = "model_checking"
 DESIGN_REF = "DESIGN.md section 5, C19"
 RULE = ("explicit-state search: a state is the canonical content of the output directory (path, content, "
         "age rank within one plot's files); from every state reached within the run bound every transition "
-        "(subset of files deleted x data of every plot in {A,B} x template in {T1, T1 plus a final newline} x every answer "
+        "(subset of files deleted x data of every plot in {A,B} - or {A,E}, E being a plot without rows, in the "
+        "jobs that say so - x template in {T1, T1 plus a final newline} x every answer "
         "sequence of the stub converters' poll()) is executed once on a freshly built real pipeline and "
         "judged; a transition is non-trivial when it is a re-run over a non-empty directory left by earlier "
         "runs; for the naming part a case is non-trivial when the context already held a name, prefix or "
@@ -51,8 +55,13 @@ ASSUMPTIONS = [
     "every converter exits with status 0; converter completion order is enumerated through poll() answers",
     "file ages are sentinel mtimes; only the age order among the files of one plot (same path stem) is part "
     "of a state (lena compares only the tex and pdf of one plot)",
-    "data in {A,B} per plot (1-dim histograms), one template file with content in {T1, T1 plus a final newline} shared by all plots, "
+    "data in {A,B} per plot (1-dim histograms; in separate jobs {A,E} or {A,B,E}, where E is a graph without "
+    "points, CSV text ''), one template file with content in {T1, T1 plus a final newline} shared by all plots, "
     "pipeline settings fixed along a history",
+    "MapGroup's combination of output.changed is judged for mapped sequences that leave a member's flag alone "
+    "or raise it (absent to False or True, False to True), as a Write does, on groups made by group_plots",
+    "Write's content rule: with overwrite or for a newly created file the value of output.changed is not "
+    "judged beyond 'true on arrival stays true' and 'true when the content changed'",
     "content freshness is judged, not re-conversion as such: a derived artefact must equal what the stub "
     "produces from the files on disk whenever one of its sources was written in this run or it was missing",
     "with Write(existing_unchanged=True) an existing source file may keep its old content (documented)",
@@ -87,8 +96,13 @@ MAIN_CFGS = [_cfg(), _cfg("eu", "eu"), _cfg("ov", "ov"), _cfg("eu", "default"), 
              _cfg("ov", "default"), _cfg("default", "ov"), _cfg(pdf_ov=True), _cfg(png_ov=True)]
 
 
+GROUP3_PARTS = 4
+
+
 def _plan(tier):
-    """(jobs explored inside one shard each, jobs explored level by level over many shards)."""
+    """(jobs explored inside one shard each, jobs explored level by level over many shards).
+    A job may name its data letters ("alphabet", default A and B) and may be one part of a job split
+    by the inputs of the first run ("first": [part, parts])."""
     light, heavy = [], []
     if tier == "quick":
         for c in ALL_CFGS:
@@ -97,11 +111,20 @@ def _plan(tier):
             light.append({"kind": "grouped", "p": 2, "cfg": c, "runs": 3})
         light.append({"kind": "plain", "p": 2, "cfg": _cfg(), "runs": 2})
         light.append({"kind": "plain", "p": 1, "cfg": _cfg(img="jpeg"), "runs": 6})
+        # a plot that becomes (or stops being) empty: data in {A, E}, E has the empty string as its text
+        for c in MAIN_CFGS:
+            light.append({"kind": "plain", "p": 1, "cfg": c, "runs": 6, "alphabet": "AE"})
+        # a group of three members (the largest of the quantifier): a member with a neighbour on both sides
+        for part in range(GROUP3_PARTS):
+            light.append({"kind": "grouped", "p": 3, "cfg": _cfg(), "runs": 2, "first": [part, GROUP3_PARTS]})
     else:
         light.append({"kind": "plain", "p": 1, "cfg": _cfg(img="jpeg"), "runs": 8})
         light.append({"kind": "grouped", "p": 2, "cfg": _cfg(img="jpeg"), "runs": 3})
         for c in ALL_CFGS:
             light.append({"kind": "plain", "p": 1, "cfg": c, "runs": 8})
+        for c in ALL_CFGS:
+            light.append({"kind": "plain", "p": 1, "cfg": c, "runs": 8, "alphabet": "ABE"})
+        light.append({"kind": "grouped", "p": 2, "cfg": _cfg(), "runs": 3, "alphabet": "AE"})
         for c in ALL_CFGS:
             heavy.append({"kind": "grouped", "p": 2, "cfg": c, "runs": 4})
         for c in MAIN_CFGS:
@@ -115,13 +138,17 @@ def _plan(tier):
 def describe(tier):
     if tier == "quick":
         return ("plain pipeline, 1 plot: all 36 existing_unchanged/overwrite settings, histories to closure "
-                "(at most 6 runs); grouped pipeline (2 members): 9 settings, <= 3 runs; plain 2 plots: default "
+                "(at most 6 runs); the same with data in {A, E = no rows} for 9 settings; grouped pipeline "
+                "(2 members): 9 settings, <= 3 runs; grouped pipeline (3 members): default settings, 2 runs; "
+                "plain 2 plots: default "
                 "settings, <= 2 runs; every subset of files deleted between runs; MakeFilename sequences of "
-                "length <= 2 over 62 elements x 9 contexts and length 3 over 14 elements")
-    return ("plain 1 plot: 36 settings to closure (<= 8 runs); grouped 2 members: 36 settings, <= 4 runs; "
+                "length <= 2 over 62 elements x 11 contexts and length 3 over 14 elements; Write alone: 4 texts "
+                "x 5 earlier contents x 3 settings x 3 flags; MapGroup over all 258 flag patterns of 1..3 members")
+    return ("plain 1 plot: 36 settings to closure (<= 8 runs), also with data in {A, B, E = no rows}; grouped 2 "
+            "members with data in {A, E}: default settings, <= 3 runs; grouped 2 members: 36 settings, <= 4 runs; "
             "plain 2 plots: 9 settings <= 3 runs and default settings <= 4 runs; plain 3 plots, deletions "
             "restricted to one plot, <= 3 runs; grouped 3 members <= 3 runs; MakeFilename sequences of "
-            "length <= 3 over 62 elements x 9 contexts")
+            "length <= 3 over 62 elements x 11 contexts; Write alone and MapGroup flag patterns as in the quick tier")
 
 
 # ------------------------------------------------------------------------------------------------
@@ -219,7 +246,12 @@ def values(p, data):
         ctx = {"name": M.NAMES[i]}
         if M.DIRS[i]:
             ctx["dir"] = M.DIRS[i]
-        out.append((lena.structures.histogram(list(M.EDGES), list(M.DATA[data[i]])), ctx))
+        bins = M.DATA[data[i]]
+        if bins is None:
+            plot = lena.structures.graph([[], []])      # no point passed the selection: no rows
+        else:
+            plot = lena.structures.histogram(list(M.EDGES), list(bins))
+        out.append((plot, ctx))
     return out
 
 
@@ -571,9 +603,9 @@ def _pdf_fault(kind, cfg, doc, trig, missing, flags, all_true, member_flags, pos
 # ------------------------------------------------------------------------------------------------
 # exploring
 # ------------------------------------------------------------------------------------------------
-def all_inputs(p):
+def all_inputs(p, letters=None):
     return [{"data": "".join(d), "tpl": t} for t in M.LABELS
-            for d in itertools.product(sorted(M.DATA), repeat=p)]
+            for d in itertools.product(sorted(letters or M.DEFAULT_LETTERS), repeat=p)]
 
 
 def deletion_sets(job, files):
@@ -594,6 +626,10 @@ def expand(job, state, hist, sb, res=None, chunk=None, table=None):
     files = sorted(state)
     p = job["p"]
     n = 0
+    inputs_here = all_inputs(p, job.get("alphabet"))
+    if job.get("first") and not hist:
+        # a job split by the inputs of its first run
+        inputs_here = [i for k, i in enumerate(inputs_here) if k % job["first"][1] == job["first"][0]]
     for deleted in deletion_sets(job, files):
         n += 1
         if chunk is not None and n % chunk[1] != chunk[0]:
@@ -601,7 +637,7 @@ def expand(job, state, hist, sb, res=None, chunk=None, table=None):
         gone = set(deleted)
         pre = {q: state[q] for q in files if q not in gone}
         pre_content = {q: c for q, (c, _) in pre.items()}
-        for inputs in all_inputs(p):
+        for inputs in inputs_here:
             for answers, obs in poll_schedules(lambda a: sb.execute(job, pre, inputs, a)):
                 step = {"delete": deleted, "data": inputs["data"], "tpl": inputs["tpl"], "polls": answers}
                 c = canon(obs["state"])
@@ -642,7 +678,8 @@ def explore_job(job, res):
         for depth in range(job["runs"]):
             nxt = []
             for state, hist in frontier:
-                res.states += 1
+                if hist or not job.get("first") or job["first"][0] == 0:
+                    res.states += 1     # the empty directory is one state, whatever the number of parts
                 succ = expand(job, state, hist, sb, res, table=table)
                 for c in sorted(succ):
                     if c not in seen:
@@ -703,7 +740,7 @@ def reuse_histories(job, sb, maxlen, res):
     """All histories of 2..maxlen runs (first run in an empty directory); between runs every subset of
     the files is deleted for the step before the last one judged... for length 3 deletions are
     restricted to nothing or a single file (stated in describe())."""
-    inputs0 = all_inputs(job["p"])
+    inputs0 = all_inputs(job["p"], job.get("alphabet"))
     first = [{"delete": [], "data": i["data"], "tpl": i["tpl"]} for i in inputs0]
 
     def successors(state, full):
@@ -1054,6 +1091,144 @@ def check_pdf_ages(res):
         res.sample(case, 1)
 
 
+FLAG_ORDER = ("absent", False, True)
+
+
+def check_mapgroup_flags(res):
+    """MapGroup: the group's output.changed after the mapped sequence is true if any member's is (and
+    not true if none is). Groups of 1..3 members made by group_plots; every member comes with
+    output.changed absent / False / True and the mapped sequence leaves it alone or raises it (absent
+    to False or True, False to True - what a Write does), in every combination."""
+    steps = [(b, a) for kb, b in enumerate(FLAG_ORDER) for a in FLAG_ORDER[kb:]]
+    for k in (1, 2, 3):
+        for combo in itertools.product(steps, repeat=k):
+            before = [b for b, _ in combo]
+            after = [a for _, a in combo]
+            case = {"law": "mapgroup-flags", "before": [str(f) for f in before], "after": [str(f) for f in after]}
+            table = dict(("m%d" % i, a) for i, a in enumerate(after))
+
+            def set_flag(val):
+                data, ctx = val
+                f = table[ctx["name"]]
+                if f != "absent":
+                    ctx.setdefault("output", {})["changed"] = f
+                return (data, ctx)
+
+            members = []
+            for i, b in enumerate(before):
+                out = {"filetype": "csv", "filename": "m%d" % i}
+                if b != "absent":
+                    out["changed"] = b
+                members.append(("d%d" % i, {"output": out, "name": "m%d" % i}))
+            got_members = None
+            try:
+                outs = list(lena.flow.MapGroup(set_flag).run([_group_plots(members)]))
+                if len(outs) == 1 and isinstance(outs[0], tuple) and len(outs[0]) == 2:
+                    got = _flag(outs[0][1])
+                    grp = outs[0][1].get("group")
+                    got_members = [_flag(c) for c in grp] if isinstance(grp, list) else None
+                else:
+                    got = "results: %d" % len(outs)
+            except Exception as e:
+                got = "raised " + type(e).__name__
+            want_true = any(a is True for a in after)
+            if isinstance(got, str) and got != "absent":
+                ok = False
+            elif got_members is None or len(got_members) != k or \
+                    any(g is not True for g, a in zip(got_members, after) if a is True):
+                ok = False      # a member's own true flag stays true in context.group
+            else:
+                ok = (got is True) if want_true else (got is not True)
+            pos = [i for i, a in enumerate(after) if a is True]
+            res.case(nontrivial=k > 1, outcome=("mapgroup", tuple(case["after"]), _flagname(got)))
+            if not ok:
+                res.violation(case, {"group": got, "members": got_members},
+                              {"group": True if want_true else "not True", "members": after},
+                              {"law": "mapgroup-flags", "element": "MapGroup", "any_member_true": want_true,
+                               "members": k,
+                               "true_members": "none" if not pos else
+                                               ("inner-only" if all(0 < i < k - 1 for i in pos) else "outer")})
+    res.sample(case, 1)
+
+
+WRITE_TEXTS = ("", "x", "x\n", "old")
+WRITE_TEXT_NAMES = {"": "empty", "x": "x", "x\n": "x+newline", "old": "old"}
+
+
+def check_write_content(res):
+    """Write alone, one value: every text of WRITE_TEXTS (the empty string is a text) over a file that is
+    missing or holds any of these texts, for every existing_unchanged / overwrite setting and
+    output.changed absent / False / True on arrival. Afterwards the yielded path exists and holds the
+    text (with existing_unchanged an existing file may keep its content); output.changed is true if the
+    content changed or if it was true on arrival; with default settings an existing file that already
+    holds the text is not rewritten and does not turn output.changed true."""
+    with scratch_dir(prefix="lena-verif-c19c-"):
+        path = os.path.join("o", "f.txt")
+        for mode in WMODES:
+            for existing in (None,) + WRITE_TEXTS:
+                for text in WRITE_TEXTS:
+                    for arriving in FLAG_ORDER:
+                        case = {"law": "write-content", "mode": mode, "text": text,
+                                "existing": existing, "changed_on_arrival": str(arriving)}
+                        shutil.rmtree("o", ignore_errors=True)
+                        stamp = None
+                        if existing is not None:
+                            os.makedirs("o")
+                            with open(path, "w") as f:
+                                f.write(existing)
+                            os.utime(path, ns=(T0 * 10 ** 9, T0 * 10 ** 9))
+                            stamp = os.stat(path).st_mtime_ns
+                        out = {"filename": "f"}
+                        if arriving != "absent":
+                            out["changed"] = arriving
+                        problem = None
+                        flag = None
+                        try:
+                            r = list(lena.output.Write("o", verbose=False, **WKW[mode]).run([(text, {"output": out})]))
+                        except Exception as e:  # noqa
+                            problem = "raised " + type(e).__name__
+                        if problem is None:
+                            if not (len(r) == 1 and isinstance(r[0], tuple) and len(r[0]) == 2 and r[0][0] == path):
+                                problem = "yielded-value"
+                            else:
+                                flag = _flag(r[0][1])
+                        if problem is None:
+                            if not os.path.isfile(path):
+                                problem = "file-missing"
+                            else:
+                                with open(path) as f:
+                                    now = f.read()
+                                rewritten = stamp is None or os.stat(path).st_mtime_ns != stamp
+                                allowed = [text] + ([existing] if mode == "eu" and existing is not None else [])
+                                if now not in allowed:
+                                    problem = "content-not-current"
+                                elif existing is not None and now != existing and flag is not True:
+                                    problem = "content-changed-flag-not-true"
+                                elif arriving is True and flag is not True:
+                                    problem = "true-on-arrival-lost"
+                                elif mode == "default" and existing == text and rewritten:
+                                    problem = "unchanged-file-rewritten"
+                                elif mode == "default" and existing == text and arriving is not True and flag is True:
+                                    problem = "unchanged-file-flag-true"
+                        before = "missing" if existing is None else ("same" if existing == text else "different")
+                        res.case(nontrivial=existing is not None,
+                                 outcome=("write-content", mode, before, str(arriving), _flagname(flag), problem))
+                        if problem:
+                            res.violation(case, {"problem": problem, "changed": flag,
+                                                 "file": _read_or_missing(path)},
+                                          {"file": text, "changed": "true iff content changed or true on arrival"},
+                                          {"law": "write-content", "mode": mode, "problem": problem,
+                                           "before": before, "text": "empty" if text == "" else "non-empty"})
+        res.sample(case, 1)
+
+
+def _read_or_missing(path):
+    if not os.path.isfile(path):
+        return M.MISSING
+    with open(path) as f:
+        return f.read()
+
+
 def check_group_flags(res):
     """group_plots: output.changed of the group is true if any member's is (and not true if none is)."""
     for k in (1, 2, 3):
@@ -1087,6 +1262,7 @@ def shards(tier):
     out = []
     out.append({"kind": "group-flags", "bound": "laws"})
     out.append({"kind": "write-path", "bound": "laws"})
+    out.append({"kind": "write-content", "bound": "laws"})
     elems = naming_elements(False)
     if tier == "quick":
         nsh = 8
@@ -1099,12 +1275,18 @@ def shards(tier):
         for s in range(len(elems)):
             out.append({"kind": "naming", "maxlen": 3, "reduced": False, "part": [s, len(elems)],
                         "bound": "laws"})
+    # jobs over the wider alphabets (a plot without rows, three members) go last: a run that is stopped
+    # by its time budget has then completed the older bounds first
+    wider = [job for job in light if job.get("alphabet") or job.get("first")]
     for job in light:
-        out.append({"kind": "explore", "job": job, "bound": "histories"})
+        if job not in wider:
+            out.append({"kind": "explore", "job": job, "bound": "histories"})
     for kind_, p_ in (("plain", 1), ("grouped", 2)):
         out.append({"kind": "reuse", "job": {"kind": kind_, "p": p_, "cfg": _cfg()},
                     "maxlen": 3 if (tier == "thorough" or kind_ == "plain") else 2,
                     "bound": "one pipeline object for all runs"})
+    for job in wider:
+        out.append({"kind": "explore", "job": job, "bound": "histories: a plot without rows; three members"})
     if heavy:
         found = discover(heavy)
         for k, depth, sj, hist in sorted(found, key=lambda t: (t[1], t[0])):
@@ -1121,6 +1303,9 @@ def run_shard(p, tier):
     kind = p["kind"]
     if kind == "group-flags":
         check_group_flags(res)
+        check_mapgroup_flags(res)
+    elif kind == "write-content":
+        check_write_content(res)
     elif kind == "write-path":
         check_write_paths(res)
         check_table_pipeline(res)
@@ -1192,6 +1377,12 @@ def replay(case):
     elif law == "group-flags":
         check_group_flags(res)
         return [v for v in result_violations(res) if v["case"].get("flags") == case.get("flags")]
+    elif law == "mapgroup-flags":
+        check_mapgroup_flags(res)
+        return [v for v in result_violations(res) if v["case"] == case]
+    elif law == "write-content":
+        check_write_content(res)
+        return [v for v in result_violations(res) if v["case"] == case]
     elif law == "pdf-ages":
         check_pdf_ages(res)
         return [v for v in result_violations(res) if v["case"] == case]
@@ -1221,8 +1412,11 @@ LEVEL_TEXT = ("explicit-state model checking of the output directory: breadth-fi
               "per plot x template x stub-converter poll answers) out of every state reached within the run bound "
               "is executed on a freshly built real pipeline and judged against a model of the property statement; "
               "1-plot pipelines are explored to closure for all 36 existing_unchanged/overwrite settings")
-LEVEL_NOTE = ("pdflatex/pdftoppm are stubs (digest-like contents, exit status 0); data and templates are two-valued; "
+LEVEL_NOTE = ("pdflatex/pdftoppm are stubs (digest-like contents, exit status 0); data and templates are two-valued "
+              "(three data values, one of them without rows, in the 1-plot jobs of the thorough tier); "
               "2- and 3-plot and grouped pipelines are bounded by the number of runs, not explored to closure; "
-              "MakeFilename rules are an exhaustive enumeration of sequences of <= 3 elements, not a state search")
+              "MakeFilename rules, Write's content rule and MapGroup's flag rule are exhaustive enumerations "
+              "(sequences of <= 3 elements; texts x earlier contents x settings; flag patterns of <= 3 members), "
+              "not a state search")
 TECHNIQUE = ("history explorer over a directory (E5): explicit-state BFS with canonical directory snapshots, stub "
              "subprocess owning converter completion, sentinel mtimes owning file ages")
